@@ -19,6 +19,16 @@ claim("C03",
       "Bounded exhaustive exploration of the real parser: every token sequence of length <=3 (quick) / <=4 (thorough) over a vocabulary covering every token type in 12 tag framings, 18 nesting families at every depth 1..256, and every truncation / single-byte edit (pairs in thorough) of a construct-covering corpus; each input is executed on plush.Parse under panic recovery and a step budget (hang = budget exhausted, no wall clock). Totality is a property of every input, so enumeration of the small-input space reaches the nil-child/EOF combinations a handful of tests cannot.",
       EXEC_NOTE, "bounded exhaustive input enumeration (explicit-state, trie DFS) on the real parser with step-budget hang detection", "DESIGN.md §4 C03")
 
+claim("C02",
+      "Bounded exhaustive exploration of the real lexer/parser/evaluator against a reference scanner: every string over an 11-symbol escape-relevant alphabet up to length 5/6 bare and around 4 generated tags, every string-literal body up to length 4/5 over a 12-symbol alphabet in 5 placements, and every sequence of <=3 items from text/output tag/17 silent constructs in 7 block placements (differential against the same template with the silent items deleted). The scanner decides per byte context, so all short byte contexts are enumerated rather than sampled.",
+      EXEC_NOTE, "bounded exhaustive input enumeration on the real code vs. a reference scanner (explicit-state, trie DFS)", "DESIGN.md §4 C02")
+claim("C04",
+      "Complete kind matrices executed on the real evaluator: (operator x L x R), unary/emit/let/assign, L[I] with field/method tails, L[I]=V for all triples, member/method access on every kind incl. nil receivers, for over every kind, L(args) up to 3 arguments, user functions p params x a args, and every built-in helper (taken from plush.Helpers at run time) x argument lists, over 43 injected + 11 expression-produced value kinds; oracle (out,nil) or (\"\",err), no panic / step-budget exhaustion / worker crash. Each reflect precondition is selected by a kind combination, so the matrices are the state space.",
+      EXEC_NOTE, "bounded exhaustive enumeration of kind matrices on the real evaluator (explicit-state) with step-budget hang detection", "DESIGN.md §4 C04")
+claim("C05",
+      "All compositions wrapper^d ∘ statement-form ∘ expression-context^e ∘ failing-atom (10 wrappers, 12 statement forms, 35 expression contexts, 9 atoms; d<=1/2, e<=2) rendered on the real code with recording helpers; whenever the failing site was reached the render must fail with empty output and errors.Is(sentinel); unknown identifiers are tolerated exactly in the listed direct positions. Whether an error survives depends on every evaluator frame between the failure and the top, so every frame pair is enumerated.",
+      EXEC_NOTE, "bounded exhaustive enumeration of program contexts with fault-injecting helpers on the real evaluator", "DESIGN.md §4 C05")
+
 def main():
     repo_head = subprocess.run(["git", "-C", "/repo", "log", "--format=%H %s"], capture_output=True, text=True).stdout.strip().split("\n")
     hook_commits = [l.split()[0] for l in repo_head if " verif:" in l]
